@@ -14,8 +14,8 @@ import traceback
 from . import env
 
 
-class CaseTimeout(Exception):
-    pass
+class CaseTimeout(BaseException):
+    """hang watchdog; not an Exception, so that no 'except Exception' inside a monitor or the code under test swallows it"""
 
 
 def _alarm(signum, frame):
@@ -52,6 +52,10 @@ def run_one(mon, case, timeout):
             res = mon.run(case)
     except CaseTimeout:
         res = {'timeout': True, 'violations': []}
+    except Exception:
+        # an error of the monitor itself (the code under test is called inside try/except by every monitor): this case is
+        # lost and reported, the shard goes on
+        res = {'harness_error': traceback.format_exc()[-1500:], 'violations': []}
     finally:
         signal.alarm(0)
         signal.signal(signal.SIGALRM, old)
@@ -68,7 +72,7 @@ def main(argv):
         mon.setup()
     cov = linecov.start(getattr(mon, 'MECHANISMS', []))
     open_keys = open_finding_keys(prop)
-    case_timeout = int(os.environ.get('VMON_CASE_TIMEOUT', '180'))
+    case_timeout = int(os.environ.get('VMON_CASE_TIMEOUT', getattr(mon, 'CASE_TIMEOUT', 600)))
 
     acc = dict(evaluations=0, nontrivial=0, classes=set(), features=collections.Counter(),
                streams=collections.Counter(), samples=[], violations=[], timeouts=0,
@@ -99,6 +103,9 @@ def main(argv):
             acc['streams'][stream] += 1
             if res.get('timeout'):
                 acc['timeouts'] += 1
+                continue
+            if res.get('harness_error'):
+                acc['errors'].append(res['harness_error'])
                 continue
             for f in case.get('features', ()):
                 acc['features'][f] += 1
